@@ -12,6 +12,7 @@ import (
 	"math/rand"
 	"strings"
 	"sync"
+	"sync/atomic"
 	"time"
 
 	"k8s.io/apimachinery/pkg/apis/meta/v1/unstructured"
@@ -224,7 +225,9 @@ func drain(ch chan event.Event) []wev {
 	}
 }
 
-const grace = 40 * time.Millisecond
+const grace = 25 * time.Millisecond
+
+var missedCompletions int32
 
 // execute runs one scripted phase on the real WaitTask.
 func execute(sc *scenario) (res result) {
@@ -310,10 +313,26 @@ func execute(sc *scenario) (res result) {
 		}
 	}
 	if !received {
+		// Whether the task signals completion is observed, not assumed; only the
+		// patience depends on what the emitted events suggest (a loaded machine
+		// can delay the task's goroutine).
+		wait := grace
+		ended := sc.looksEnded(res.events)
+		if ended {
+			wait = 4 * time.Second
+			if atomic.LoadInt32(&missedCompletions) >= 3 {
+				// the implementation evidently does not signal completion here;
+				// stop spending seconds on every further case
+				wait = 3 * grace
+			}
+		}
 		select {
 		case <-tc.TaskChannel():
 			received = true
-		case <-time.After(grace):
+		case <-time.After(wait):
+			if ended {
+				atomic.AddInt32(&missedCompletions, 1)
+			}
 		}
 	}
 	res.completed = received
@@ -344,6 +363,32 @@ func execute(sc *scenario) (res result) {
 		res.failure = fmt.Sprintf("the table has %d records, %d were registered", n, countDistinct(sc.table))
 	}
 	return res
+}
+
+// looksEnded: a Cancel was scripted, or after some step no tracked id had
+// Pending as its last event.
+func (sc *scenario) looksEnded(events [][]wev) bool {
+	last := map[int]event.WaitEventStatus{}
+	nonePending := func() bool {
+		for _, i := range sc.ids {
+			if st, ok := last[i]; !ok || st == event.ReconcilePending {
+				return false
+			}
+		}
+		return true
+	}
+	for k, st := range events {
+		if k > 0 && k-1 < len(sc.inputs) && sc.inputs[k-1].kind != inUpdate {
+			return true
+		}
+		for _, e := range st {
+			last[e.id] = e.st
+		}
+		if nonePending() {
+			return true
+		}
+	}
+	return false
 }
 
 func countDistinct(t []recT) int {
@@ -434,53 +479,7 @@ func (sc *scenario) render(res result) (term, text string) {
 		}
 	}
 	fmt.Fprintf(&b, "] completed=%v", res.completed)
-	for _, m := range sc.marks(res) {
-		b.WriteString(" " + m)
-	}
 	return term, b.String()
-}
-
-// marks names the input classes of known findings that occur in the run (see
-// known_findings.json): an object that has left both the pending and the failed
-// set is re-examined by status and generation only, its UID is not looked at.
-func (sc *scenario) marks(res result) []string {
-	last := map[int]string{}
-	note := func(k int) {
-		if k < len(res.events) {
-			for _, e := range res.events[k] {
-				last[e.id] = wstatusCoq[e.st]
-			}
-		}
-	}
-	rec := map[int]recT{}
-	has := map[int]bool{}
-	for _, r := range sc.table {
-		rec[r.id], has[r.id] = r, true
-	}
-	note(0)
-	seen := map[string]bool{}
-	var out []string
-	for k, x := range sc.inputs {
-		if x.kind == inUpdate && sc.cond == 0 && has[x.id] {
-			r, o := rec[x.id], x.o.canon()
-			replaced := r.uid != 0 && o.has && o.uid != 0 && o.uid != r.uid
-			current := o.st == 2 && o.gen >= r.gen
-			quiet := k+1 < len(res.events) && len(res.events[k+1]) == 0
-			m := ""
-			if last[x.id] == "WSuccessful" && replaced && current && quiet {
-				m = "[KF-settled-uid:reconciled-then-replaced]"
-			}
-			if last[x.id] == "WFailed" && !replaced && current && quiet {
-				m = "[KF-settled-uid:replaced-then-original]"
-			}
-			if m != "" && !seen[m] {
-				seen[m] = true
-				out = append(out, m)
-			}
-		}
-		note(k + 1)
-	}
-	return out
 }
 
 // ---- generators -------------------------------------------------------------
@@ -508,13 +507,13 @@ func corpus() []*scenario {
 			inputs: []inputT{upd(0, 1, true, 10, 1), cur(0, 20, 1)}},
 		{kind: "corpus:failed-then-replaced-2ids", cond: 0, ids: []int{0, 1}, table: []recT{okRec(0, 0, 10, 1), okRec(0, 1, 11, 1)},
 			inputs: []inputT{upd(0, 1, true, 10, 1), cur(0, 20, 1), cur(1, 11, 1)}},
-		// known finding: reconciled, then replaced, stays reconciled
+		// former defect (fixed): reconciled, then replaced, stayed reconciled
 		{kind: "corpus:reconciled-then-replaced", cond: 0, ids: []int{0, 1}, table: []recT{okRec(0, 0, 10, 1), okRec(0, 1, 11, 1)},
 			inputs: []inputT{cur(0, 10, 1), cur(0, 20, 1), cur(1, 11, 1)}},
-		// known finding: failed for a replaced UID, then the original object again
+		// former defect (fixed): failed for a replaced UID, then the original object again stayed failed
 		{kind: "corpus:replaced-then-original", cond: 0, ids: []int{0, 1}, table: []recT{okRec(0, 0, 10, 1), okRec(0, 1, 11, 1)},
 			inputs: []inputT{cur(0, 20, 1), cur(0, 10, 1), cur(1, 11, 1)}},
-		// delete phase: a recreated object is Successful, then Pending on the same observation again
+		// former defect (fixed): delete phase, a recreated object alternated Successful / Pending on the same observation
 		{kind: "corpus:recreated-repeats", cond: 1, ids: []int{0, 1}, table: []recT{okRec(1, 0, 10, 0), okRec(1, 1, 11, 0)},
 			inputs: []inputT{cur(0, 20, 1), cur(0, 20, 1), upd(1, 4, false, 0, 0), cur(0, 20, 1)}},
 		// stale generation is not Current yet
@@ -561,14 +560,14 @@ func variants(cond int) []recT {
 	s := cond
 	return []recT{
 		ok,
-		{id: 0, strat: s, act: 3, viaAPI: true},            // failed actuation
-		{id: 0, strat: s, act: 2, viaAPI: true},            // skipped actuation
-		{id: 0, strat: s, act: 0, viaAPI: true},            // still pending actuation
-		{id: 0, strat: s, act: 1, uid: 0, gen: 1},          // succeeded, no uid recorded
-		{id: 0, strat: 1 - s, act: 3, viaAPI: true},        // the other strategy, failed (operator precedence in skipped())
-		{id: 0, strat: 1 - s, act: 2, viaAPI: true},        // the other strategy, skipped
+		{id: 0, strat: s, act: 3, viaAPI: true},                // failed actuation
+		{id: 0, strat: s, act: 2, viaAPI: true},                // skipped actuation
+		{id: 0, strat: s, act: 0, viaAPI: true},                // still pending actuation
+		{id: 0, strat: s, act: 1, uid: 0, gen: 1},              // succeeded, no uid recorded
+		{id: 0, strat: 1 - s, act: 3, viaAPI: true},            // the other strategy, failed (operator precedence in skipped())
+		{id: 0, strat: 1 - s, act: 2, viaAPI: true},            // the other strategy, skipped
 		{id: 0, strat: 1 - s, act: 1, uid: appliedUID, gen: 1}, // the other strategy, succeeded
-		{id: 99},                                           // marker: no record at all
+		{id: 99}, // marker: no record at all
 	}
 }
 
@@ -819,7 +818,7 @@ func Run(seed int64, tier, outDir string) (*emit.Summary, error) {
 	results := make([]result, len(scs))
 	var wg sync.WaitGroup
 	work := make(chan int)
-	for w := 0; w < 24; w++ {
+	for w := 0; w < 16; w++ {
 		wg.Add(1)
 		go func() {
 			defer wg.Done()
